@@ -4,11 +4,11 @@ import portcheck
 
 META = {
     "property_id": "C03",
-    "technique": "Coq totality lemmas for the model's handlers (Panic = panic, failed assertion or overflow) + source site inventory (translator) proved equal to the reviewed inventory + mutated-extreme-input correspondence in debug and release builds with the oracle ok_C03 evaluated in Coq",
+    "technique": "Coq totality lemmas for the model's handlers (Panic = panic, failed assertion or overflow) + source site inventory (translator) proved equal to the reviewed inventory + mutated-extreme-input correspondence in debug and release builds with the oracle ok_C03 evaluated in Coq; 65.5k-call warm-up cases crossing the 16-bit sequence wrap",
     "category": "proof",
     "text": "Every potentially panicking expression of the modelled code is an explicit Panic outcome of the Gallina model. Proved for all inputs in the stated ranges: Time +/- Duration, data set comparison and best-master selection, every master-side handler (Sync, Follow_Up, Delay_Resp, Pdelay_Resp, Pdelay_Resp_Follow_Up, Delay_Req/Pdelay_Req emission) for all timestamps in [0, 2^63 ns) and all request headers, and Announce emission for provider queues of any length and TLV size return normally. The per-function inventory of potentially panicking expressions in statime/src (393 functions, 637 sites) is regenerated from the source on every run and proved equal to the reviewed inventory, so a new or changed site anywhere in the library breaks a proof obligation. On the implementation: all scenario generators run with frames and timestamps mutated towards extremes (corrections +-2^63, lengths around 34/44/54/64/1024/2048, timestamps 0 and 2^63 ns - 1, stepsRemoved 254/255/65535, random tails), debug build with overflow checks and release build without; ok_C03 requires every call to return and the model to predict no overflow (which a release build would hide).",
     "design_ref": "DESIGN.md section 6 (C03)",
-    "level_note": "Not yet proved: the global invariant (bounded stored times, well-formed foreign master lists, distinct port identities) that makes the slave-side handlers and the BMCA panic-free for every history; those paths are covered by the correspondence (the model predicts each panic site) and by C09/C14 lemmas under explicit range hypotheses. Configuration domain: log intervals in [-7, 7], at least one port (F20: PtpInstance::bmca on an instance without ports overflows 2^127 s — outside the domain, recorded in DESIGN). Filters: C13. The site inventory is token-level (translate/gen_sites.py), part of the trusted base.",
+    "level_note": "The unbounded statement is proved: C03_no_host_call_sequence_panics (Port/Inv*.v): for every valid set-up and EVERY sequence of host calls (arbitrary octets, timestamps in [0,2^63 ns), any TLV queue, timers, BMCA, setting changes) no Panic site of the model is reached; the proof is an instance invariant (stored times and durations bounded, foreign master lists well-formed, distinct port identities, path trace length) shown inductive over step. It is a theorem about the model; the correspondence ties the model (including each Panic site) to the code. Configuration domain: log intervals in [-7, 7], at least one port (F20: PtpInstance::bmca on an instance without ports overflows 2^127 s — outside the domain, recorded in DESIGN). Filters: C13. The site inventory is token-level (translate/gen_sites.py), part of the trusted base.",
 }
 
 
@@ -21,8 +21,8 @@ def _sites():
 
 S = portcheck.make(
     "C03", "Port.OracleC03",
-    [("c03", "debug", 500, 20000), ("c03", "release", 250, 10000)],
-    rule="every scenario generator (mixed walk, slave exchanges, master, boundary clock, peer delay, TLV forwarding, foreign master patterns, roles) with received frames and timestamps mutated towards extreme values; class = c03 : underlying scenario class",
+    [("c03", "debug", 500, 20000), ("c03", "release", 250, 10000), ("warm", "debug", 4, 32), ("warm", "release", 4, 16)],
+    rule="every scenario generator (mixed walk, slave exchanges, master, boundary clock, peer delay, TLV forwarding, foreign master patterns, roles) with received frames and timestamps mutated towards extreme values; class = c03 : underlying scenario class; warm = one host call (sync / announce / delay_req / pdelay_req timer) repeated 65520+ times unobserved, then an observed tail across the sequence-id wrap (case type Port/WarmCases.v)",
     shard=25,
 )
 S.translators = [_sites]
